@@ -24,11 +24,11 @@ Stmts(mn) ==
   \cup {[S0 EXCEPT !.mn = mn, !.form = "mem", !.force = f, !.expr = E1(N(x[1], x[2]))] : f \in {"", "<", ">"}, x \in {<<v, sp>> \in Vals \X {"dec","hex","hex2","hex4","bin8","bin16","char"} : sp \in Sps(v)}}
   \cup {[S0 EXCEPT !.mn = mn, !.form = "extind", !.expr = E1(N(x[1], x[2]))] : x \in {<<v, sp>> \in Vals \X {"dec","hex","hex2","hex4","bin8","bin16","char"} : sp \in Sps(v)}}
   \cup {[S0 EXCEPT !.mn = mn, !.form = "idx", !.reg = r, !.sub = s, !.ind = n] : r \in IdxRegs, s \in Subs, n \in BOOLEAN}
-  \cup {[S0 EXCEPT !.mn = mn, !.form = "idx", !.reg = r, !.sub = "acc", !.acc = a, !.ind = n] : r \in IdxRegs, a \in {"A","B","D"}, n \in BOOLEAN}
+  \cup {[S0 EXCEPT !.mn = mn, !.form = "idx", !.reg = r, !.sub = "acc", !.acc = a, !.ind = n] : r \in IdxRegs, a \in {"A","B","D"}, n \in (IF mn \in StackOps \cup PairOps THEN {TRUE} ELSE BOOLEAN)}
   \cup {[S0 EXCEPT !.mn = mn, !.form = "idx", !.reg = r, !.sub = "off", !.ind = n, !.expr = E1(N(x[1], x[2]))] : r \in IdxRegs, n \in BOOLEAN, x \in {<<v, sp>> \in Vals \X {"dec","hex","hex2","hex4","bin8","bin16","char"} : sp \in Sps(v)}}
   \cup {[S0 EXCEPT !.mn = mn, !.form = "pcr", !.ind = n, !.expr = E1(N(x[1], x[2]))] : n \in BOOLEAN, x \in {<<v, sp>> \in Vals \X {"dec","hex","hex2","hex4","bin8","bin16","char"} : sp \in Sps(v)}}
-  \cup (IF mn \in StackOps \/ mn \in {"LDA", "TFR", "NOP"} THEN {[S0 EXCEPT !.mn = mn, !.form = "regs", !.regs = SetToSeq(rs)] : rs \in RegLists \ {{}}} ELSE {})
-  \cup (IF mn \in PairOps \/ mn \in {"LDA", "PSHS", "NOP"} THEN {[S0 EXCEPT !.mn = mn, !.form = "pair", !.r1 = a, !.r2 = b] : a \in Regs, b \in Regs} ELSE {})
+  \cup (IF mn \in StackOps \/ mn \in {"NOP", "BRA"} THEN {[S0 EXCEPT !.mn = mn, !.form = "regs", !.regs = SetToSeq(rs)] : rs \in RegLists \ {{}}} ELSE {})
+  \cup (IF mn \in PairOps \/ mn \in {"NOP", "LBRA"} THEN {[S0 EXCEPT !.mn = mn, !.form = "pair", !.r1 = a, !.r2 = b] : a \in Regs, b \in Regs} ELSE {})
 Ctx == [addr |-> 1, dp |-> 0]
 IsValid(s) == Acceptable(s, <<>>, 1, {0}, {}).must = "accept"
 IsInvalid(s) == Acceptable(s, <<>>, 1, {0}, {}).must = "reject"
